@@ -538,8 +538,9 @@ func checkTrieNodes(ref *RefState, paths []snap.TrieNodePathSet, reqBytes uint64
 	var size uint64
 	for i, blob := range nodes {
 		if i > 0 && size > budgetOf(reqBytes) {
-			// the budget is checked per path set for account nodes, so one set may overshoot
-			res.Probe("trie-nodes-after-budget")
+			// "Bytes: soft limit at which to stop returning data": the item that crosses the
+			// limit is the last one, whatever path set it belongs to
+			return v48("trie-over-budget", "%s: %d bytes were already served before item %d of %d (budget %d)", desc, size, i, len(nodes), budgetOf(reqBytes))
 		}
 		size += uint64(len(blob))
 		found := false
@@ -606,7 +607,7 @@ func genAccSel(r *simcore.Rand, contractBias bool) AccSel {
 }
 
 func genNibSel(r *simcore.Rand) NibSel {
-	switch r.Pick(4, 6, 2, 1) {
+	switch r.Pick(3, 9, 2, 1) {
 	case 0:
 		return NibSel{M: 0, I: uint32(r.Uint64()), L: r.Range(0, 64)}
 	case 1:
@@ -662,6 +663,11 @@ func genReq48(r *simcore.Rand, nblocks int) Req48 {
 		}
 	case kTrie:
 		n := r.Range(1, 6)
+		if r.Bool(0.5) {
+			// several path sets under a small budget: the limit is crossed before the last set
+			n = r.Range(2, 12)
+			q.Bytes = uint64(r.Pick(1, 2, 2, 1) * r.Range(1, 400))
+		}
 		for i := 0; i < n; i++ {
 			ps := PathSel{}
 			if r.Bool(0.5) {
